@@ -263,6 +263,9 @@ func (b *Blob) Grow(off int64) error {
 
 // Truncate implements TruncateBlob
 func (b *Blob) Truncate(size int64) error {
+	if size < 0 {
+		return fmt.Errorf("Negative truncate size: %d", size)
+	}
 	if atomic.LoadInt64(&b.length) < size {
 		return nil
 	}
